@@ -53,7 +53,7 @@ def _final(seed, p, ops, mode, rnd):
 
 
 def _schedules(ctx, rep, n):
-    for pname in ('basic', 'noswitch-projected', 'fleet'):
+    for pname in ('basic', 'projheavy', 'fleet', 'pymods'):
         p = F.PARAM_SETS[pname]
         base = ctx.sub_rnd('sched', pname).randrange(10 ** 9)
         for k in range(n):
@@ -85,7 +85,7 @@ def _schedules(ctx, rep, n):
 def correspondence(ctx):
     rep = ctx.report
     rep.rules.append(RULE)
-    F.histories(ctx, rep, ['basic', 'noswitch-projected'], ctx.n(30, 600), 'corr')
+    F.histories(ctx, rep, ['basic', 'projheavy'], ctx.n(40, 600), 'corr')
 
 
 def oracle(ctx):
